@@ -65,7 +65,8 @@ Proof.
   { destruct Hw as [[_ Hw] | [_ [upl [Hui Hw]]]]; rewrite Hw in Hin.
     - rewrite deletes_of_map in Hin. assumption.
     - rewrite deletes_of_app, deletes_of_map in Hin. apply in_app_or in Hin. destruct Hin as [Hin|Hin]; [assumption|].
-      apply update_instance_inv in Hui. destruct Hui as [st' [h [ann' [ws [_ Hfin]]]]].
+      apply update_instance_inv in Hui. destruct Hui as [st' [h [ann' [ws [pl0 [_ [Hfin Hsame]]]]]]].
+      apply same_writes in Hsame. rewrite Hsame in Hin.
       apply finish_no_deletes in Hfin. destruct Hfin as [F _]. rewrite F in Hin. contradiction. }
   unfold dels, rs_to_delete in Hd'. apply in_map_iff in Hd'. destruct Hd' as [r [Hn Hr]].
   apply filter_In in Hr. destruct Hr as [Hr Hc]. rewrite !andb_true_iff in Hc. destruct Hc as [[[C1 C2] _] C4].
@@ -111,7 +112,8 @@ Proof.
   - exfalso. destruct Hw as [[_ Hw] | [_ [upl [Hui Hw]]]]; rewrite Hw in Hin.
     + rewrite creates_of_deletes in Hin. contradiction.
     + rewrite creates_of_app, creates_of_deletes in Hin. cbn [app] in Hin.
-      apply update_instance_inv in Hui. destruct Hui as [st' [h [ann' [ws [_ Hfin]]]]].
+      apply update_instance_inv in Hui. destruct Hui as [st' [h [ann' [ws [pl0 [_ [Hfin Hsame]]]]]]].
+      apply same_writes in Hsame. rewrite Hsame in Hin.
       apply finish_no_deletes in Hfin. destruct Hfin as [_ F]. rewrite F in Hin. contradiction.
 Qed.
 
@@ -146,7 +148,8 @@ Proof.
     pose proof (failed_never_promoted (e_annots e) c a u (es_now sn) Hfailed) as Hcur. rewrite Hs in Hcur. cbn in Hcur. subst current.
     fold dels in dels'. unfold dels' in *. clear dels'.
     destruct Hw as [[Hf Hw] | [Hf [upl [Hui Hw]]]]; [left; split; assumption|]. right. split; [assumption|].
-    apply update_instance_inv in Hui. destruct Hui as [st' [h [ann' [ws [Hres Hfin]]]]].
+    apply update_instance_inv in Hui. destruct Hui as [st' [h [ann' [ws [pl0 [Hres [Hfin Hsame]]]]]]].
+    apply same_writes in Hsame. rewrite Hsame in Hw. clear Hsame upl.
     inversion Hres as [Hnc | cspec st'' ann'' ws' Hcs pr failed actv st1 st2 st3 Hact Hinact]; subst; [congruence|].
     assert (Df : failed = true) by exact Hfailed.
     assert (Da : actv = false) by (unfold actv; rewrite Df; reflexivity).
@@ -155,7 +158,7 @@ Proof.
     assert (A2 : es_active st3 = r_name a) by (unfold st3; rewrite manage_status_active; reflexivity).
     assert (A3 : es_state st3 = ST_CANARY_FAILED) by (unfold st3, manage_status; rewrite Df; reflexivity).
     rewrite Df in Hfin. cbn [orb] in Hfin.
-    exists st3, upl. repeat split; assumption.
+    exists st3, pl0. repeat split; assumption.
 Qed.
 
 (** every status written during the rollback clears status.canary, keeps activeReplicaSet and reports
